@@ -2,6 +2,7 @@
 from __future__ import annotations
 
 import datetime as D
+from fractions import Fraction
 
 from hypothesis import strategies as st
 
@@ -49,11 +50,19 @@ amount = st.fixed_dictionaries({}, optional={
 })
 
 
+# the repository's own tests pass fractional seconds (add(seconds=1.9)): dyadic fractions k/64 s are exact in microseconds
+amount_float = st.fixed_dictionaries({"seconds": st.integers(-64 * 100000, 64 * 100000).map(lambda k: k / 64)},
+                                     optional={"hours": st.integers(-30, 30), "minutes": st.integers(-100, 100), "microseconds": st.integers(-3 * 10**6, 3 * 10**6)})
+
+
 def total(a):
-    return ((a.get("hours", 0) * 60 + a.get("minutes", 0)) * 60 + a.get("seconds", 0)) * 10**6 + a.get("microseconds", 0)
+    t = ((a.get("hours", 0) * 60 + a.get("minutes", 0)) * 60 + Fraction(a.get("seconds", 0))) * 10**6 + a.get("microseconds", 0)
+    assert t.denominator == 1, a
+    return int(t)
 
 
 class AddSub(Sub):
+    ambient = True
     name = "add_subtract"
     backends = ("py",)
     n = {"quick": 12000, "thorough": 400000}
@@ -61,7 +70,7 @@ class AddSub(Sub):
     rule = "non-trivial: the shift wraps across midnight, or microseconds are involved, or the amount has mixed signs"
 
     def strategy(self, ctx):
-        return st.fixed_dictionaries({"t": tod, "amt": amount})
+        return st.fixed_dictionaries({"t": tod, "amt": st.one_of(amount, amount, amount, amount_float)})
 
     def check(self, case, ctx):
         t0 = case["t"]
@@ -92,6 +101,7 @@ tdelta = st.one_of(
 
 
 class Timedelta(Sub):
+    ambient = True
     name = "timedelta_ops"
     backends = ("py",)
     n = {"quick": 8000, "thorough": 200000}
@@ -145,6 +155,7 @@ class Timedelta(Sub):
 
 
 class Diff(Sub):
+    ambient = True
     name = "diff_closest"
     backends = ("py",)
     n = {"quick": 10000, "thorough": 300000}
